@@ -327,6 +327,95 @@ theorem skipped_mem_existingEvs {c : Cfg P} {d : DEnt P} {ds : List (DEnt P)} {e
   simp only [existingEvs, List.mem_cons, List.mem_map]
   exact Or.inr ⟨e, h, rfl⟩
 
+theorem mem_takeWhile_true {α : Type} {p : α → Bool} {l : List α} {a : α} (h : a ∈ l.takeWhile p) : p a = true := by
+  induction l with
+  | nil => cases h
+  | cons x rest ih =>
+    simp only [List.takeWhile_cons] at h
+    split at h
+    · rename_i hx
+      rcases List.mem_cons.1 h with h | h
+      · rw [h]; exact hx
+      · exact ih h
+    · cases h
+
+theorem mem_existingEvs_skipped {c : Cfg P} {d : DEnt P} {rest : List (DEnt P)} {q : P}
+    (h : Ev.skipped q ∈ existingEvs c d rest) : d.kind = .dir ∧ c.under d.path q = true := by
+  simp only [existingEvs, List.mem_cons, List.mem_map] at h
+  rcases h with h | ⟨e, he, heq⟩
+  · cases h
+  · injection heq with hq
+    subst hq
+    unfold skipSplit at he
+    split at he
+    · rename_i hk
+      exact ⟨hk, mem_takeWhile_true (p := fun e : DEnt P => c.under d.path e.path) (l := rest) he⟩
+    · cases he
+
+theorem additional_head_mem (c : Cfg P) (d : DEnt P) (rest : List (DEnt P)) (hk : d.kind = .dir) :
+    Ev.additional d.path true (c.delete && !c.dryRun) ∈ existingEvs c d rest := by
+  simp [existingEvs, hk]
+
+/-- every entry the walk never visits (`skip_current_dir`) lies below a DIRECTORY entry that was disposed of as `additional` -/
+theorem walk_skipped_origin (c : Cfg P) (ds : List (DEnt P)) (ns : List (NEnt P)) (q : P)
+    (h : Ev.skipped q ∈ walk c ds ns) :
+    ∃ d ∈ ds, d.kind = .dir ∧ c.under d.path q = true ∧ ∃ r, Ev.additional d.path true r ∈ walk c ds ns := by
+  fun_induction walk c ds ns with
+  | case1 => cases h
+  | case2 d ds ih =>
+    rcases List.mem_append.1 h with h | h
+    · obtain ⟨hk, hu⟩ := mem_existingEvs_skipped h
+      exact ⟨d, List.mem_cons_self, hk, hu, _, List.mem_append_left _ (additional_head_mem c d ds hk)⟩
+    · obtain ⟨e, he, hk, hu, r, hr⟩ := ih h
+      exact ⟨e, List.mem_cons_of_mem _ (mem_skip2 he), hk, hu, r, List.mem_append_right _ hr⟩
+  | case3 n ns ih =>
+    rcases List.mem_cons.1 h with h | h
+    · cases h
+    · obtain ⟨e, he, _⟩ := ih h
+      cases he
+  | case4 d ds n ns hc ih =>
+    rcases List.mem_append.1 h with h | h
+    · obtain ⟨hk, hu⟩ := mem_existingEvs_skipped h
+      exact ⟨d, List.mem_cons_self, hk, hu, _, List.mem_append_left _ (additional_head_mem c d ds hk)⟩
+    · obtain ⟨e, he, hk, hu, r, hr⟩ := ih h
+      exact ⟨e, List.mem_cons_of_mem _ (mem_skip2 he), hk, hu, r, List.mem_append_right _ hr⟩
+  | case5 d ds n ns hc hm ih =>
+    rcases List.mem_append.1 h with h | h
+    · obtain ⟨hk, hu⟩ := mem_existingEvs_skipped h
+      exact ⟨d, List.mem_cons_self, hk, hu, _, List.mem_append_left _ (additional_head_mem c d ds hk)⟩
+    · rcases List.mem_cons.1 h with h | h
+      · cases h
+      · obtain ⟨e, he, hk, hu, r, hr⟩ := ih h
+        exact ⟨e, List.mem_cons_of_mem _ (mem_skip2 he), hk, hu, r, List.mem_append_right _ (List.mem_cons_of_mem _ hr)⟩
+  | case6 d ds n ns hc hm ih =>
+    rcases List.mem_cons.1 h with h | h
+    · cases h
+    · rcases List.mem_cons.1 h with h | h
+      · cases h
+      · obtain ⟨e, he, hk, hu, r, hr⟩ := ih h
+        exact ⟨e, List.mem_cons_of_mem _ he, hk, hu, r, List.mem_cons_of_mem _ (List.mem_cons_of_mem _ hr)⟩
+  | case7 d ds n ns hc ih =>
+    rcases List.mem_cons.1 h with h | h
+    · cases h
+    · obtain ⟨e, he, hk, hu, r, hr⟩ := ih h
+      exact ⟨e, he, hk, hu, r, List.mem_cons_of_mem _ hr⟩
+
+/-- members of a sorted stream are determined by their path -/
+theorem sorted_path_unique {α : Type} {cmp : P → P → Ordering} (L : LawfulCmp cmp) (f : α → P) {l : List α}
+    (h : l.Pairwise (fun a b => cmp (f a) (f b) = .lt)) : ∀ a ∈ l, ∀ b ∈ l, f a = f b → a = b := by
+  induction l with
+  | nil => intro a ha; cases ha
+  | cons x rest ih =>
+    intro a ha b hb hab
+    have hx : ∀ e ∈ rest, cmp (f x) (f e) = .lt := fun e he => List.rel_of_pairwise_cons h he
+    rcases List.mem_cons.1 ha with ha1 | ha1
+    · rcases List.mem_cons.1 hb with hb1 | hb1
+      · rw [ha1, hb1]
+      · rw [ha1] at hab; exact absurd hab (L.lt_ne (hx b hb1))
+    · rcases List.mem_cons.1 hb with hb1 | hb1
+      · rw [hb1] at hab; exact absurd hab.symm (L.lt_ne (hx a ha1))
+      · exact ih (List.Pairwise.of_cons h) a ha1 b hb1 hab
+
 theorem mem_skip_cases {c : Cfg P} {d : DEnt P} {ds : List (DEnt P)} {e : DEnt P} (h : e ∈ ds) :
     e ∈ (skipSplit c d ds).1 ∨ e ∈ (skipSplit c d ds).2 := by
   rw [← skipSplit_append c d ds] at h
